@@ -48,7 +48,8 @@ PROBES = ["image_moved_between_redraws", "image_disappeared", "bare_non_composit
           "kitty_style_by_forced_support", "grid_row_redivided",
           "kitty_widget_spec_with_z_index_field", "redraw_interrupted",
           "images_rerendered_in_place", "stray_image_before_start",
-          "redraw_while_resize_pending", "same_canvas_drawn_again_after_interrupt"]
+          "redraw_while_resize_pending", "same_canvas_drawn_again_after_interrupt",
+          "overlay_aimed_at_one_side_of_an_image"]
 COMPONENTS = {
     "real": ["UrwidImageScreen (draw_screen, clear, clear_images, _start, _stop, "
              "_ti_clear_images)", "UrwidImage / UrwidImageCanvas", "KittyImage / ITerm2Image / "
@@ -390,7 +391,13 @@ def run(ch, ctx, fault=None):
         do_start()
         n_ops = ch.int("n_ops", 3, ctx.cfg["max_ops"])
         earlier = []
-        for i in range(n_ops):
+        queue = []
+        forced_aim = [False]
+        i = -1
+        while True:
+            i += 1
+            if not queue and i >= n_ops:
+                break
             # explicit clear_images() is generated at most once between two redraws (the
             # disguise state is modulo 3: three calls without a redraw wrap it, as the
             # library's own comments note)
@@ -404,9 +411,29 @@ def run(ch, ctx, fault=None):
                     (10, "draw"), (3, "create"), (2, "drop"), (5, "layout"), (3, "scroll"),
                     (6, "grid_edit"), (3, "move_overlay"), (2, "resize"), (1, "clear"),
                     (2, "clear_images"), (1, "stop_start"), (2, "draw_interrupted"),
-                    (2, "swap_toggle"),
+                    (2, "swap_toggle"), (4 if layout["kind"] == "overlay" else 0, "popup"),
                 ])
+            if queue:
+                op = queue.pop(0)
+            elif op == "popup":
+                # a pop-up that was elsewhere appears over one side of an image: redraw with
+                # the pop-up out of the way, move it onto the image, redraw
+                queue = ["move_away", "draw", "move_aimed", "draw"]
+                continue
             desc = op
+            if op == "move_away":
+                if layout["kind"] != "overlay":
+                    del queue[:]
+                    continue
+                layout.update(x=max(0, size[0] - 1), y=max(0, size[1] - 1), ow=1, oh=1)
+                ctx.op("overlay -> 1x1 in the bottom right corner")
+                continue
+            if op == "move_aimed":
+                if layout["kind"] != "overlay" or not last_geo[0]:
+                    del queue[:]
+                    continue
+                forced_aim[0] = True
+                op = "move_overlay"
             if op == "draw":
                 top = build(layout)
                 if force_new[0]:
@@ -610,6 +637,30 @@ def run(ch, ctx, fault=None):
                     continue
                 layout["x"], layout["y"] = ch.int("ox", 0, 20), ch.int("oy", 0, 10)
                 desc = "overlay -> (%d,%d)" % (layout["x"], layout["y"])
+                aimed = forced_aim[0]
+                forced_aim[0] = False
+                if last_geo[0] and (aimed or ch.bool("aimed_at_image", 0.3)):
+                    # the pop-up is put exactly over one side (or all) of an image view: the
+                    # view keeps its place and is trimmed on that side only
+                    # (the first field of a geometry entry is an id(): not a sort key)
+                    grow, gcol, grows, gcols = ch.pick(
+                        "target", sorted(g[1:] for g in last_geo[0]))
+                    side = ch.pick("side", ("right", "right", "left", "bottom", "top", "all"))
+                    x, y, ow, oh = gcol, grow, gcols, grows
+                    if side == "right" and gcols > 1:
+                        cut = ch.int("cut", 1, gcols - 1)
+                        x, ow = gcol + cut, gcols - cut
+                    elif side == "left" and gcols > 1:
+                        ow = ch.int("cut", 1, gcols - 1)
+                    elif side == "bottom" and grows > 1:
+                        cut = ch.int("cut", 1, grows - 1)
+                        y, oh = grow + cut, grows - cut
+                    elif side == "top" and grows > 1:
+                        oh = ch.int("cut", 1, grows - 1)
+                    layout.update(x=x, y=y, ow=ow, oh=oh)
+                    desc = "overlay -> %dx%d at (%d,%d): the %s of an image view" % (
+                        ow, oh, x, y, side)
+                    ctx.probe("overlay_aimed_at_one_side_of_an_image")
                 ctx.probe("overlay_covers_image")
             elif op == "resize":
                 size[0], size[1] = ch.int("cols2", 8, 60), ch.int("rows2", 4, 30)
